@@ -364,7 +364,9 @@ def tokSafe : Tok → Bool
 mutual
 def namesValid : Stan → Bool
   | .tag name attrs children =>
-    (name.isEmpty || validName name) && attrs.all (fun kv => validName kv.1) && namesValidList children
+    -- the attributes of a transparent tag are never written
+    if name.isEmpty then namesValidList children
+    else validName name && attrs.all (fun kv => validName kv.1) && namesValidList children
   | _ => true
 def namesValidList : List Stan → Bool
   | [] => true
@@ -733,18 +735,36 @@ def hrefOf : List (List Char × List Char) → List Char
   | (k, v) :: r => if k = ['h', 'r', 'e', 'f'] then v else hrefOf r
 
 mutual
-/-- the walk of `_is_math_html` over the parsed fragment: every element is one of math2html's own,
-carries only math2html's attributes, and no `href` is a script URL (a transparent tag is the
-fragment's root / dissolves when flattened: only its children count) -/
+/-- the walk of `_is_math_html` over the parsed fragment (as of commit 00f0a02): every element is
+one of math2html's own, carries only math2html's attributes, no `href` is a script URL, and every
+other child is text — a comment or a CDATA section is refused (a transparent tag is the fragment's
+root / dissolves when flattened: only its children count; a character reference is text once the
+fragment is parsed) -/
 def isMathHtml : Stan → Bool
   | .tag name attrs children =>
     if name.isEmpty then isMathHtmlList children
     else mathTags.contains name && attrs.all (fun kv => mathAttrs.contains kv.1) &&
       !scriptHref (hrefOf attrs) && isMathHtmlList children
-  | _ => true
+  | .text _ => true
+  | .charref _ => true
+  | .comment _ => false
+  | .cdata _ => false
 def isMathHtmlList : List Stan → Bool
   | [] => true
   | t :: ts => isMathHtml t && isMathHtmlList ts
+end
+
+mutual
+/-- the walk before 00f0a02 (9d87f54): children that are not elements were not looked at -/
+def isMathHtmlOld : Stan → Bool
+  | .tag name attrs children =>
+    if name.isEmpty then isMathHtmlOldList children
+    else mathTags.contains name && attrs.all (fun kv => mathAttrs.contains kv.1) &&
+      !scriptHref (hrefOf attrs) && isMathHtmlOldList children
+  | _ => true
+def isMathHtmlOldList : List Stan → Bool
+  | [] => true
+  | t :: ts => isMathHtmlOld t && isMathHtmlOldList ts
 end
 
 /-- `visit_math`: `html` is what docutils' math2html wrote (a parameter), `parsed` its `html2stan`
@@ -772,5 +792,27 @@ def formatSigIntrospected (reprText : List Char) : List Char :=
 /-- before cac0f25 the repr was handed to the XML parser as it was -/
 def formatSigIntrospectedOld (reprText : List Char) : Option (List Char) :=
   html2stanText reprText
+
+/-! ### 7f. `stanutils._refuse_template_directives` (commit 8cc9d33) -/
+
+/-- what the walk distinguishes in a tree loaded by twisted's template loader -/
+inductive TNode where
+  | text                         -- `str`
+  | other                        -- comment, CDATA: not looked at
+  | slot                         -- `twisted.web.template.slot`
+  | tag (name : List Char) (hasRender : Bool) (attrsAreText : Bool) (children : List TNode)
+  deriving Repr
+
+mutual
+/-- `true` = the function returns, `false` = it raises `ValueError`: no renderer, no transparent
+tag, only text attribute values, no slot — anywhere in the tree -/
+def directiveFree : TNode → Bool
+  | .tag name r a children => !r && !name.isEmpty && a && directiveFreeList children
+  | .slot => false
+  | _ => true
+def directiveFreeList : List TNode → Bool
+  | [] => true
+  | t :: ts => directiveFree t && directiveFreeList ts
+end
 
 end Escape
